@@ -32,7 +32,7 @@ ASSUMPTIONS = [
     "patience <= max_iter (larger patience cannot be sliced and is outside the domain)",
 ]
 WORKERS = 16
-TIMEOUT = {"quick": 900, "thorough": 3600}
+TIMEOUT = {"quick": 1500, "thorough": 10800}
 
 ALPHA5 = np.array([-1.0, -0.5, 0.0, 0.25, 1.0], np.float32)
 ALPHA6 = np.array([-1.0, -0.5, 0.0, 0.25, 1.0, 2.0], np.float32)
